@@ -6,6 +6,7 @@ mod c10;
 mod c12;
 mod c17;
 mod c18;
+mod c19;
 mod c20;
 mod c20x;
 mod fw;
@@ -38,6 +39,7 @@ macro_rules! registry {
             "C13" => $mac!(pipechecks::C13),
             "C17" => $mac!(c17::C17),
             "C18" => $mac!(c18::C18),
+            "C19" => $mac!(c19::C19),
             "C20" => $mac!(c20::C20),
             other => {
                 eprintln!("HARNESS-ERROR unknown check id {}", other);
@@ -47,7 +49,7 @@ macro_rules! registry {
     };
 }
 
-pub const ALL_IDS: &[&str] = &["C01", "C02", "C04", "C05", "C06", "C07", "C08", "C09", "C10", "C12", "C13", "C17", "C18", "C20"];
+pub const ALL_IDS: &[&str] = &["C01", "C02", "C04", "C05", "C06", "C07", "C08", "C09", "C10", "C12", "C13", "C17", "C18", "C19", "C20"];
 
 fn arg_val(args: &[String], name: &str) -> Option<String> {
     args.iter()
